@@ -17,12 +17,16 @@ META = {
     "property_id": "C21",
     "technique": "Lean 4 model of regex/transpile.go with matching semantics for source and target (theorems by induction over "
                  "the syntax tree) + differential transpilation on generated trees x 64 flag sets + independent reference matcher",
-    "level_text": "Kernel-checked: the Lean port of regex/transpile.go is total; on the staged fragment its output denotes, "
-                  "under the RE2 matching relation, exactly the strings the Elk tree denotes (see docs/C21.md for the stage "
-                  "reached). The port is tied to the code by string equality with regex.Transpile on generated trees for all "
-                  "64 flag sets; real Regex#matches is compared with an independent reference matcher and with itself on "
-                  "metamorphic pairs. Partial: Go's regexp matcher and the Unicode tables are trusted; constructs outside the "
-                  "fragment are covered by the correspondence and the reference matcher only.",
+    "level_text": "Kernel-checked (transpile_correct, transpile_prints): for every Elk regex tree in the fragment — literals, '.', "
+                  "anchors, shorthand classes in ASCII and Unicode mode, bracket expressions incl. the split of negated shorthands, "
+                  "concatenation, alternation, ? * +, all group kinds with scoped i m s U x a, extended-mode whitespace — every flag "
+                  "set, subject and position pair, the string the (mirrored) transpiler returns is the print of an RE2 tree that "
+                  "matches exactly where the Elk tree does; the known x-mode comment defect has a kernel-checked witness. The "
+                  "mirror (Lean port of regex lexer, parser and transpile.go) is tied to the code by string equality with "
+                  "regex.Parse/Transpile on generated sources for all 64 flag sets; real Regex#matches is compared with an "
+                  "independent reference matcher and with itself on metamorphic pairs (incl. + * and interpolation). Partial: "
+                  "counted repetition, \\Q..\\E, numeric escapes, top-level \\p, flag-only groups and x-mode comments are outside "
+                  "the proved fragment (tested only); Go's regexp parser/matcher and the Unicode tables are trusted.",
     "level_note": "Trusted: Lean kernel; hand-written model of transpile.go; Go's regexp/syntax parser and matcher (RE2 semantics); "
                   "python unicodedata for the reference matcher's categories; harness.",
     "design_ref": "DESIGN.md §7 C21",
@@ -165,7 +169,7 @@ def run(ctx):
         if f[0] == "tree":
             trees.append(json.loads(f[1], object_hook=None))
     trees = [totuple(t) for t in trees]
-    ntrees = ctx.n(2000, 50000)
+    ntrees = ctx.n(2000, 20000)
     for _ in range(ntrees):
         t = gen.tree()
         if rng.random() < 0.12:
@@ -180,7 +184,7 @@ def run(ctx):
         for fl in range(64):
             tr_lines.append("rx\ttr\t%d\t%s\t%s" % (fl, hx(src), lt))
             tr_meta.append((t, src, fl))
-    impl = vlib.run_impl(tr_lines)
+    impl = LC.confirm_hangs(tr_lines, vlib.run_impl(tr_lines), ctx.stat)
     model_lines, model_idx = [], []
     parse_ok = True
     reported = {}
@@ -191,6 +195,8 @@ def run(ctx):
         if fl == 0:
             ctx.stat("parse:" + ("ok" if got.startswith("ast=") else got.split("=")[0]))
             ctx.stat("size:%d" % (min(25, R.size(t)) // 5 * 5))
+        if a == "slow":
+            continue
         if a.startswith("timeout") or a.startswith("panic") or a.startswith("fatal"):
             if reported.setdefault("crash", 0) < 3:
                 reported["crash"] += 1
@@ -255,7 +261,7 @@ def run(ctx):
             m_lines.append("rx\tmatch\t%d\t%s\t%s" % (fl, hx(sw), ",".join(hx(s) for s in subs)))
             m_meta.append(("pair-b:b|a", t, sw, fl, subs))
     # composition: Regex#+ and Regex#*
-    for _ in range(ctx.n(400, 10000)):
+    for _ in range(ctx.n(400, 5000)):
         t1, t2 = gen.tree(10), gen.tree(10)
         f1, f2 = rng.choice([0, 0, R.I, R.A, R.S | R.M, rng.randrange(64) & ~R.X]), rng.choice([0, R.I, rng.randrange(64) & ~R.X])
         subs = subjects_for(("cat", [t1, t2]), rng, 10)
@@ -269,13 +275,16 @@ def run(ctx):
         n = rng.choice([0, 1, 2, 3])
         m_lines.append("rx\tcomp\trepeat\t%d\t%s\t%d\t-\t%s" % (f1, hx(s1), n, ",".join(hx(s) for s in subs)))
         m_meta.append(("ref", ("qn", 0, str(n), ("grp", "", 0, 0, 1, t1)), "%s * %d" % (s1, n), f1, subs))
-    mimpl = vlib.run_impl(m_lines)
+    mimpl = LC.confirm_hangs(m_lines, vlib.run_impl(m_lines), ctx.stat)
     pending_a = None
     nref = nskip = ncerr = 0
     for k, (meta, a) in enumerate(zip(m_meta, mimpl)):
         kind, t, src, fl, subs = meta
         ctx.case(("m", kind, src, fl), nontrivial=a.startswith("ok "), sample=None)
         ctx.stat("match:" + a.split(" ")[0] + (" " + a.split(" ")[1] if a.startswith("cerr") else ""))
+        if a == "slow":
+            pending_a = (k, "slow", src) if kind == "pair-a" else pending_a
+            continue
         if a.startswith("timeout") or a.startswith("panic") or a.startswith("fatal"):
             if reported.setdefault("crash", 0) < 3:
                 reported["crash"] += 1
@@ -299,7 +308,7 @@ def run(ctx):
             pending_a = (k, got, src)
         else:
             ka, ga, srca = pending_a
-            if ga is None and got is None:
+            if ga == "slow" or (ga is None and got is None):
                 continue
             if ga != got:
                 cls = XDEFECT if kind.endswith("x-mode") and x_comment_structure(src) else "metamorphic"
